@@ -1,4 +1,5 @@
 import Hls.Pool.LemmasResult
+import Hls.Pool.LowLatency
 import Hls.Gen.Blocking
 /-!
 # C12 — Client always terminates cleanly: one error, no leaked goroutines
@@ -276,6 +277,44 @@ theorem c12_close_can_finish {p : Params} (hg : p.good = true) (hw : p.wf = true
     obtain ⟨e, he, _⟩ := hi.done_result hrun
     exact ⟨s, e, hr, he⟩
 
+/-! ## The Low-Latency loop (`runLowLatency`: preload hints and playlist reloads) -/
+
+/-- the stream downloader's graph among the regenerated ones -/
+def downloaderGraph : TaskGraph :=
+  (Hls.Gen.taskGraphs.find? (fun g => g.name = "clientStreamDownloader")).getD default
+
+/-- `c12_ll_loop_cancellable`: the regenerated graph of the stream downloader contains the Low-Latency loop
+    (preload-hint request → its body → playlist reload → its body → next hint, or the fatal "preload hint
+    disappeared"), exactly once, and each of its four blocking operations has the pool-context arm; that arm and the
+    failing arm lead straight to `return err` of `run` (class `io`). -/
+theorem c12_ll_loop_cancellable :
+    downloaderGraph ∈ Hls.Gen.taskGraphs ∧ downloaderGraph.name = "clientStreamDownloader" ∧
+    (llLoops Hls.Gen.blockingRows downloaderGraph).length = 1 ∧
+    ∀ l ∈ llLoops Hls.Gen.blockingRows downloaderGraph, l.ok downloaderGraph = true := by decide
+
+/-- `c12_ll_cancel_returns`: a stream downloader that is inside a preload-hint request (held by the origin until the
+    part exists), reading its body, inside a (blocking) playlist reload or reading it, when the pool context is
+    cancelled: the step it can always take ends `run` — one own step, no further blocking operation on the way — and
+    in general (other arms being ready as well, `d` detours) it returns within `1 + 2 d` own steps. -/
+theorem c12_ll_cancel_returns :
+    ∀ l ∈ llLoops Hls.Gen.blockingRows downloaderGraph, ∀ i ∈ l.nodes,
+      (∃ t, CStep downloaderGraph (.node i) false t) ∧
+      (∀ t, CStep downloaderGraph (.node i) false t → t = .ret .io) ∧
+      (∀ t n d, CRun downloaderGraph (.node i) n d t → n ≤ 1 + d * 2) := by
+  intro l hl i hi
+  have hok : downloaderGraph.ok = true := c12_graphs_ranked _ c12_ll_loop_cancellable.1
+  have hlok := c12_ll_loop_cancellable.2.2.2 l hl
+  have hnode : llNodeOk downloaderGraph i = true := List.all_eq_true.mp hlok i hi
+  have hm : downloaderGraph.maxRank = 1 := by decide
+  cases hn : downloaderGraph.nodes[i]? with
+  | none => simp [llNodeOk, hn] at hnode
+  | some n =>
+    refine ⟨Hls.Pool.cancel_progress hok hn, fun t ht => ll_cancel_returns hlok hi ht, fun t k d hrun => ?_⟩
+    have hv : downloaderGraph.valid (.node i) = true := by simp [TaskGraph.valid, TaskGraph.rankOf, hn]
+    have := cancel_terminates hok hv hrun
+    rw [hm] at this
+    omega
+
 /-! ## Non-vacuity: concrete executions of the machine on the REGENERATED graphs
 (schedules for `Hls.Pool.next`, which only takes steps of `Step`: `next_sound`) -/
 
@@ -332,5 +371,28 @@ example : ∃ s, Reachable { params with closeOnErr := false } s ∧ s.received 
 example : (runLabels { params with outErrCap := 0 } (schedIoError.take 8) { runner := .init }) = none ∧
     ((runLabels { params with outErrCap := 0 } (schedIoError.take 7) { runner := .init }).map (·.runner)) = some (.sendResult .io) := by
   decide
+
+/-- Low-Latency: `Close` twice while the stream downloader is inside a preload-hint request the origin holds: the
+    downloader takes the cancel arm of that request and returns, the primary downloader likewise, exactly one
+    `terminated` -/
+def schedCloseDuringHint : List Label :=
+  [.runner, .begin 0 0, .arm 0 0 0, .arm 0 0 0, .spawn 0 1, .begin 1 2, .close, .close, .runnerCtx, .runner,
+   .arm 0 1 0, .arm 1 2 0, .ret 0, .ret 1, .giveUp 0, .giveUp 1, .runner, .runner, .recv]
+
+example : (llLoops Hls.Gen.blockingRows downloaderGraph).map (·.hint) = [2] ∧
+    downloaderGraph.entry[2]? = some (.node 2) := by decide
+
+example : (runLabels params schedCloseDuringHint { runner := .init }).map
+    (fun s => (s.received, s.delivered, s.returned, s.closeCalls, s.panicked, s.allDone)) =
+    some ([.terminated], [], [.terminated, .io], 2, false, true) := by decide
+
+/-- Low-Latency: the stream runs until the origin stops advertising a hint — hint, its body, reload, its body, then
+    `return fmt.Errorf("preload hint disappeared")` is the first fatal error and what `Wait()` yields -/
+def schedHintDisappears : List Label :=
+  [.runner, .begin 0 0, .arm 0 0 0, .arm 0 0 0, .spawn 0 1, .begin 1 2, .arm 1 0 0, .arm 1 0 0, .arm 1 0 0, .arm 1 0 1,
+   .ret 1, .runnerRecvErr 1, .runner, .arm 0 1 0, .ret 0, .giveUp 0, .runner, .runner, .recv]
+
+example : (runLabels params schedHintDisappears { runner := .init }).map
+    (fun s => (s.received, s.delivered, s.allDone, s.cbAfter)) = some ([.other], [.other], true, 0) := by decide
 
 end Hls.Props.C12
